@@ -125,6 +125,7 @@ def _gen_case(rng, tier, g):
                                   'failed-then-rollback', 'pending-dml',
                                   'uncommitted-pending']),
             'pipeline': rng.random() < 0.3,
+            'keep_exc': rng.random() < 0.3,
             'schema': rng.choice([None, None, 'main']),
             # identifier quoting: names with a space, reserved words
             'tname': rng.choice(['t', 't', 'my table', 'select', 'Order',
@@ -438,11 +439,19 @@ def _one(e, case, path, op, handle, commit, fault, log):
             if case['pipeline'] else src
         dbo = _mk_dbo(handle, path, caller)
         raised = None
+        kept = []
         try:
             _load(e, op, source, dbo, commit)
         except (Exception, SimSourceAbort) as ex:
             raised = type(ex)
             msg = str(ex)
+            if case.get('keep_exc'):
+                # the caller keeps the exception object (a list of errors, a
+                # log record) while it goes on working with the database:
+                # nothing it holds on to - frames, the objects in them -
+                # may keep the failed load open
+                kept.append(ex)
+                probes_keep[0] = 1
         del dbo
         # the caller's except block is over: whatever the failed call left
         # suspended (e.g. the reading generator of the pipeline) is finalised
@@ -550,6 +559,7 @@ def _one(e, case, path, op, handle, commit, fault, log):
                    what + ' [follow-up appenddb]')
         model = model + _as_rows(cols, other)
         _check(tpath, cols, model, what + ' [follow-up appenddb commit=True]')
+        del kept[:]
         if bystander is not None:
             _check(path, cols, bystander, what + ' [the table of the same '
                    'name in the default schema]')
@@ -560,9 +570,13 @@ def _one(e, case, path, op, handle, commit, fault, log):
     return fired
 
 
+probes_keep = [0]
+
+
 def run_case(case):
     e = load_petl()
     log = Log()
+    probes_keep[0] = 0
     n = len(case['table']) - 1
     kinds = case.get('exc_kinds') or ['plain']
     if case.get('wide'):
@@ -615,6 +629,8 @@ def run_case(case):
                        sig={'vclass': b.vclass, 'where': _where(b.msg)},
                        digest=log.hexdigest(), steps=nruns, fired=fired)
     probes = {'loads-under-fault-plans': nruns, 'prefix:' + case['prefix']: 1}
+    if probes_keep[0]:
+        probes['exception-kept-by-caller'] = 1
     for op, handle, commit in case['combos']:
         probes['combo:%s/%s/commit=%s' % (op, handle, commit)] = 1
     states = []
